@@ -30,24 +30,37 @@
 (* a usable label (pinned tree: 'x:None').                                 *)
 (* Bug = "SheetScopeAnywhere": a sheet-unique label printed bare from any  *)
 (* sheet.                                                                  *)
+(* CROSS LABELS: a table may also have a header on its OTHER axis (a table *)
+(* referenced by column labels can have row labels as well).  xlab[x] is   *)
+(* the set of labels on that other axis.  A label that heads both a column *)
+(* and a row of one table names two different things; like a label that   *)
+(* is repeated on one axis it names nothing (Level A), so it must not be   *)
+(* used.                                                                   *)
+(* Bug = "CrossAxisIgnored": the chooser looks at one axis at a time       *)
+(* (pinned tree: column C and row 4 of Data both print as Data::x).        *)
 (***************************************************************************)
 EXTENDS Refs
-CONSTANTS Labels, NL, MaxTotal
+CONSTANTS Labels, NL, MaxTotal, CrossOn
 VARIABLES lab,      \* [Tables(ns) -> [1..NL -> Labels \cup {""}]]
+          xlab,     \* [Tables(ns) -> SUBSET Labels]: the labels on the other axis of each table
           line,     \* <<i, j>> with i <= j: the stored target lines
           ab        \* the begin end is absolute
-lvars == <<vars, lab, line, ab>>
+lvars == <<vars, lab, xlab, line, ab>>
 None == ""
 AllT == Tables(ns)
 \* ---- which lines have a label that can be used at all: non-empty and unique on its axis in its table
 CountIn(x, L) == Cardinality({k \in 1..NL : lab[x][k] = L})
 Usable(x, i) == /\ (lab[x][i] # None \/ Bug = "EmptyLabelUsable")
                 /\ CountIn(x, lab[x][i]) = 1
+                /\ (lab[x][i] \notin xlab[x] \/ Bug = "CrossAxisIgnored")
 UsableLines(S, L) == {<<x, i>> \in S \X (1..NL) : Usable(x, i) /\ lab[x][i] = L}
+\* usable names on the other axis: those that do not occur on the referenced axis of their table at all
+XUsable(x, L) == L \in xlab[x] /\ (CountIn(x, L) = 0 \/ Bug = "CrossAxisIgnored")
+Occ(S, L) == Cardinality(UsableLines(S, L)) + Cardinality({x \in S : XUsable(x, L)})
 SheetOf(s) == {x \in AllT : x[1] = s}
 Scope(x, i) == LET L == lab[x][i] IN
-               IF Cardinality(UsableLines(AllT, L)) = 1 THEN "DOC"
-               ELSE IF Cardinality(UsableLines(SheetOf(x[1]), L)) = 1 THEN "SHEET"
+               IF Occ(AllT, L) = 1 THEN "DOC"
+               ELSE IF Occ(SheetOf(x[1]), L) = 1 THEN "SHEET"
                ELSE IF UniqueInDoc(ns, NameOf(ns, x)) THEN "TABLE" ELSE "NONE"
 \* ---- Level B: expand_ref.  Returns the qualifier pair <<sheet or 0, table name or "">>
 Prefix(h, t, scope, isabs, noprefix) ==
@@ -68,29 +81,37 @@ Printed2(h, t, i, j, isabs, single) ==
   ELSE [num |-> TRUE, q |-> Prefix(h, t, "NONE", isabs, FALSE), l1 |-> None, l2 |-> None]
 \* ---- Level A: what a printed label reference denotes, read from host h.  A label names a line when the header cell holds it.
 \* (a label that occurs twice on the axis of its table names nothing: Numbers itself refers to such lines by number)
-LinesNamed(x, L) == {k \in 1..NL : lab[x][k] = L /\ L # None /\ CountIn(x, L) = 1}
-Pair(x, l1, l2) == LinesNamed(x, l1) # {} /\ LinesNamed(x, l2) # {}
+\* ... and so does a label that heads lines of BOTH axes of its table: within a table a name is usable when it occurs once among
+\* all its header labels
+LinesNamed(x, L) == {k \in 1..NL : lab[x][k] = L /\ L # None /\ CountIn(x, L) = 1 /\ L \notin xlab[x]}
+CrossNamed(x, L) == L # None /\ L \in xlab[x] /\ CountIn(x, L) = 0      \* L heads a line of the other axis of x, and only that
+Carries(x, L) == LinesNamed(x, L) # {} \/ CrossNamed(x, L)
+Pair(x, l1, l2) == Carries(x, l1) /\ Carries(x, l2)
 ScopeTables(h, q, l1, l2) ==
   IF q[2] # "" THEN {x \in Resolve(ns, h, q) : Pair(x, l1, l2)}
   ELSE IF Pair(h, l1, l2) THEN {h}
   ELSE LET sh == {x \in SheetOf(h[1]) : Pair(x, l1, l2)} IN
        IF sh # {} THEN sh ELSE {x \in AllT : Pair(x, l1, l2)}
-Denoted(h, q, l1, l2) == UNION {{<<x, a, b>> : a \in LinesNamed(x, l1), b \in LinesNamed(x, l2)} : x \in ScopeTables(h, q, l1, l2)}
+\* <<x, 0, 0>> stands for "lines of the other axis of x"
+Denoted(h, q, l1, l2) == UNION {{<<x, a, b>> : a \in LinesNamed(x, l1), b \in LinesNamed(x, l2)}
+                                \cup (IF CrossNamed(x, l1) /\ CrossNamed(x, l2) THEN {<<x, 0, 0>>} ELSE {}) : x \in ScopeTables(h, q, l1, l2)}
 Denotes(h, t, i, j, p) == IF p.num THEN Resolve(ns, h, p.q) = {t}
                           ELSE Denoted(h, p.q, p.l1, p.l2) = {<<t, i, j>>}
 
 \* ---- behaviours: a namespace, a labelling, a host, a target, a reference
 LabelRows == [1..NL -> Labels \cup {None}]
+XSets == IF CrossOn THEN SUBSET Labels ELSE {{}}
 Total(n) == Cardinality(Tables(n))
 LInit == /\ ns \in UNION {[1..k -> {sq \in UNION {[1..m -> TableNames] : m \in 1..MaxTables} : Injective(sq)}] : k \in 1..MaxSheets}
          /\ Total(ns) <= MaxTotal
          /\ host \in (1..MaxSheets) \X (1..MaxTables) /\ target \in (1..MaxSheets) \X (1..MaxTables)
          /\ host \in Tables(ns) /\ target \in Tables(ns)
          /\ ns0 = ns /\ renamed = <<>> /\ uniq = {}
-         /\ lab = [x \in Tables(ns) |-> [k \in 1..NL |-> None]] /\ line = <<0, 0>> /\ ab = FALSE
+         /\ lab = [x \in Tables(ns) |-> [k \in 1..NL |-> None]] /\ xlab = [x \in Tables(ns) |-> {}] /\ line = <<0, 0>> /\ ab = FALSE
 \* labels are chosen in a step, not in the initial state (TLC evaluates initial states on one thread)
 Choose == /\ line = <<0, 0>>
           /\ lab' \in [Tables(ns) -> LabelRows]
+          /\ xlab' \in [Tables(ns) -> XSets]
           /\ line' \in {<<i, j>> \in (1..NL) \X (1..NL) : i <= j}
           /\ ab' \in BOOLEAN
           /\ UNCHANGED vars
